@@ -1611,6 +1611,30 @@ func genRunnerChain(r *hx.Rng) *gScen {
 	return g.sc
 }
 
+// genRunnerChain with Orders from the two ends of the integer range: the contract sequence is MinInt, a negative Order,
+// a small positive one, MaxInt (a subset of 3 or 4 of them, registered in a random sequence); every runner but the first
+// refuses to run before its predecessor
+func genRunnerChainExtreme(r *hx.Rng) *gScen {
+	g := newBuilder(r)
+	all := []int{math.MinInt64, -7 - r.Intn(90), 3 + r.Intn(90), math.MaxInt64}
+	if r.P(1, 2) {
+		i := 1 + r.Intn(2)
+		all = append(all[:i], all[i+1:]...)
+	}
+	k := len(all)
+	pos := r.Perm(k)
+	byOrd := make([]int, k)
+	for j := 0; j < k; j++ {
+		n := g.addNode(9, false)
+		g.sc.nodes[n].ord = all[pos[j]]
+		byOrd[pos[j]] = n
+	}
+	for p := 1; p < k; p++ {
+		g.sc.nodes[byOrd[p]].runAfter = 1 + byOrd[p-1]
+	}
+	return g.sc
+}
+
 // a non-lazy component that is never handed to the start: its definition is registered by a factory post-processor of the
 // application. Nobody — or one by-name point — asks for it; runners are present.
 func genExtraDefinition(r *hx.Rng) *gScen {
